@@ -264,7 +264,9 @@ See also: guarded, rational
         if self.display < self.precision:
             v += self.__scaledr    # round
             v //= self.__scaledd   # reduce display precision
-        return self.__dfmt % (v//self.__scaled, v%self.__scaled)
+        sign = '-' if v < 0 else ''
+        v = abs(v)
+        return sign + self.__dfmt % (v//self.__scaled, v%self.__scaled)
 
     @classmethod
     def report(cls):
